@@ -133,8 +133,12 @@ func padRunes(s string, w int) string {
 // two renderings: multi-byte runes in the data cells, or in the marker cells with pure-ASCII data cells after them (a
 // byte-indexed slice of an ASCII cell looks plausible there)
 var fixedPayloadAlt = false
+var fixedPayloadBlank = false // the data cell b is all blanks: a line made of it is a line, not an empty line
 
 func fixedPayload() flPayload {
+	if fixedPayloadBlank {
+		return flPayload{"fixed-blank-cell", map[string]string{"a": "a1", "b": "   ", "H": "H1", "F": "F2"}}
+	}
 	if fixedPayloadAlt {
 		return flPayload{"fixed-ascii-after-multibyte", map[string]string{"a": "ax", "b": "b 9", "H": "Hé世🙂", "F": "Fé"}}
 	}
@@ -324,6 +328,7 @@ func c06Replay(args []string) int {
 		}
 		crlf, lastTerm := r.Intn(3) == 0, r.Intn(3) != 0
 		fixedPayloadAlt = r.Intn(2) == 0
+		fixedPayloadBlank = r.Intn(3) == 0
 		expect := func(p flPayload, fixed bool) []obsRec {
 			var out []obsRec
 			for ri, rec := range c.Recs {
